@@ -48,7 +48,8 @@ if h.MODE == "sx":
         @staticmethod
         def dumps(o, separators=None, **kw):
             t = JsonModel.dumps(o, separators=separators, **kw)
-            t.size = _SIZE["n"]
+            fn = _SIZE.get("fn")
+            t.size = fn(o) if fn is not None else _SIZE["n"]
             if kw.get("ensure_ascii") is False:
                 _SIZE["ascii_only_seen"] = False
             return t
@@ -222,6 +223,95 @@ def final_result_limit(size: int, as_error: bool):
             h.check(be.exec_result is None)
             h.check(nbytes_max <= RLIMIT, "an error larger than the Lambda response limit was returned inline")
     h.end()
+
+
+class BigMsg(str):
+    """(symbolic execution only) an ASCII error message whose LENGTH is a solver-chosen int"""
+
+    def __new__(cls, n):
+        o = str.__new__(cls, "M")
+        o.n = n
+        return o
+
+    def __len__(self):
+        return self.n
+
+    def __str__(self):
+        return self
+
+
+def _failed_overhead():
+    """characters of the FAILED response around the message text (real json, concrete)"""
+    import json
+    return len(json.dumps({"Status": "FAILED", "Error": {"ErrorType": "ValueError", "ErrorMessage": ""}}))
+
+
+@h.lemma(timeout=300, funcs=FUNCS, reach=("end", "error_over", "error_within"),
+         bounds="the handler raises ValueError with an ASCII message of ANY length; the FAILED response is the message plus a fixed envelope (its real length, computed "
+                "with the real json); over the Lambda response limit <=> EXECUTION FAIL recorded (last update) and FAILED returned without payload")
+def final_error_limit(mlen: int):
+    """
+    pre: 0 <= mlen
+    post: True
+    """
+    _final_error(mlen)
+
+
+@h.lemma(timeout=300, funcs=FUNCS, reach=("end", "error_over", "error_within"),
+         bounds="as final_error_limit with CONCRETE message lengths at the boundaries (0, limit-envelope-1, limit-envelope, limit-envelope+1, limit-1, limit, limit+1): "
+                "stays decidable when the code under test measures the message itself (len() of a str realises a symbolic length)")
+def final_error_limit_boundaries(k: int):
+    """
+    pre: 0 <= k < 7
+    post: True
+    """
+    oh = _failed_overhead()
+    lens = [0, RLIMIT - oh - 1, RLIMIT - oh, RLIMIT - oh + 1, RLIMIT - 1, RLIMIT, RLIMIT + 1]
+    for i in range(7):
+        if k == i:
+            _final_error(lens[i])
+            return
+
+
+def _final_error(mlen):
+    over_head = _failed_overhead()
+    if h.MODE == "sx":
+        msg = BigMsg(mlen)
+
+        def size_of(o):
+            if isinstance(o, dict) and isinstance(o.get("Error"), dict) and isinstance(o["Error"].get("ErrorMessage"), BigMsg):
+                return o["Error"]["ErrorMessage"].n + over_head
+            return 10
+        _SIZE["fn"] = size_of
+    else:
+        msg = "x" * mlen
+
+    def handler(event, ctx):
+        raise ValueError(msg)
+
+    try:
+        be = Backend()
+        res = run_execution(handler, be, max_invocations=1)
+    finally:
+        _SIZE["fn"] = None
+    out = res.outputs[0]
+    h.check(isinstance(out, dict) and out["Status"] == "FAILED", "a user exception must give FAILED")
+    if h.MODE == "sx":
+        inline_size = mlen + over_head
+    else:
+        import json
+        inline_size = len(json.dumps(out).encode("utf-8")) if "Error" in out else mlen + over_head
+    if "Error" not in out:
+        h.reach("error_over")
+        h.check(be.exec_result is not None and be.exec_result.action is A.FAIL and be.stream[-1][1] is be.exec_result,
+                "an oversized error must be recorded as the execution's result before FAILED is reported without payload")
+        h.check(mlen + over_head > RLIMIT, "an error within the limit must be returned inline")
+    else:
+        h.reach("error_within")
+        h.check(be.exec_result is None, "an inline error must not also be recorded")
+        h.check(inline_size <= RLIMIT, "a FAILED response larger than the Lambda response limit was returned inline instead of being recorded")
+    h.end()
+
 
 
 @h.lemma(timeout=400, funcs=FUNCS, reach=("end", "replayed"),
